@@ -191,8 +191,9 @@ RULE = ("one case = one object and its re-parse.  build stream: class x subset o
         "blank / other Unicode space / empty, missing or extra or re-spelt sub-field, single mapping, string assigned to a "
         "structured field, same field twice in different case, invalid behaviour name, invalid plain value, misspelt "
         "field; malformed edits (index out of range, absent key, incomplete record, value with blanks or LF, empty list).  "
-        "text stream: hand-written paragraphs parsed and dumped - 45% 'clean' (every line complete, any spacing, the dump "
-        "must succeed whichever fields are present), the rest short/long rows, tabs, trailing blanks, value on the key "
+        "text stream: hand-written paragraphs parsed and dumped - 45% 'clean' (every line complete, any spacing, a quarter "
+        "of the fields in the single-line form as SHA1-Current in real Index files; the dump must succeed whichever "
+        "fields are present, except single-line under Release/dak), the rest short/long rows, tabs, trailing blanks, value on the key "
         "line, empty value, single-line form, CR LF, FF/VT/NEL/LS inside a line, comments, PGP armour.  "
         "non-trivial = at least one structured field with a record, or any malformed/text case")
 TRUSTED = ["model coq/Deb822/Multivalued.v is a hand transcription of _multivalued.__init__/get_as_string, "
@@ -239,7 +240,7 @@ def _token(rng, sub):
         s = _size(rng)
         return int(s) if rng.random() < 0.3 else s
     if r < 0.35:
-        return "".join(rng.choice(HEX) for _ in range(rng.choice([1, 4, 8, 32])))
+        return "".join(rng.choice(HEX) for _ in range(rng.choice([1, 4, 8, 8, 32])))
     if r < 0.9:
         return "".join(rng.choice(NAMECH) for _ in range(rng.randint(1, 9)))
     return "".join(rng.choice(NAMECH + "".join(UNI)) for _ in range(rng.randint(1, 6)))
@@ -281,7 +282,8 @@ def _wf_build(rng, cls, tbl, subset, nrec=None):
     rng.shuffle(fields)
     build = []
     for f in fields:
-        n = nrec if nrec is not None else rng.choice([1, 1, 2, 3, 4, 5])
+        # many fields at once: fewer records each (keeps a case near 4 kB of text)
+        n = nrec if nrec is not None else (rng.choice([1, 1, 2]) if len(fields) > 6 else rng.choice([1, 1, 2, 3, 4, 5]))
         rows = [[[s, _token(rng, s)] for s in order[f]] for _ in range(n)]
         build.append([_spell(rng, f), {"multi": rows}])
     if rng.random() < 0.35:
@@ -374,7 +376,8 @@ def _text(rng, cls, tbl, subset):
         shapes.append("clean")
     for f in fields:
         key = _spell(rng, f)
-        shape = "multi" if clean else rng.choice(["multi", "multi", "multi", "multi", "firstline", "single", "empty", "emptysp"])
+        shape = (rng.choice(["multi", "multi", "multi", "single"]) if clean
+                 else rng.choice(["multi", "multi", "multi", "multi", "firstline", "single", "empty", "emptysp"]))
         shapes.append(shape)
         if shape == "multi":
             out.append(key + ":" + rng.choice(["", "", " "]))
@@ -383,7 +386,7 @@ def _text(rng, cls, tbl, subset):
             out.append(key + ":" + _line(rng, order[f]))
             out += [_line(rng, order[f]) for _ in range(rng.randint(1, 3))]
         elif shape == "single":
-            out.append(key + ":" + _line(rng, order[f]))
+            out.append(key + ":" + _line(rng, order[f], clean))
         elif shape == "empty":
             out.append(key + ":")
         else:
